@@ -47,6 +47,31 @@ Theorem C16_refusal_no_side_effect :
 Proof. exact spec_refusal_no_side_effect. Qed.
 Print Assumptions C16_refusal_no_side_effect.
 
+(* Stale request objects: a ConnectionRequest carries a snapshot of the player's server at the time
+   CreateConnectionRequest ran ([prev], None before the first join).  What executing it does depends
+   only on the player's state when it runs: any two snapshots, and a freshly created request, give the
+   same step ... *)
+Theorem C16_request_outcome_independent_of_creation_time :
+  forall (strict : bool) (e : env) (prev prev' : option nat) (t : nat) (s : st),
+    step strict e (OConnectSnap prev t) s = step strict e (OConnectSnap prev' t) s /\
+    step strict e (OConnectSnap prev t) s = step strict e (OConnect t) s.
+Proof. exact outcome_independent_of_creation_time. Qed.
+Print Assumptions C16_request_outcome_independent_of_creation_time.
+
+(* ... so C16_impl_satisfies_property covers histories with stale requests (OConnectSnap is one of the
+   operations it quantifies over).  A variant that keys handleJoinGame's tear-down on the snapshot -
+   not the code - would depend on it: from the same state the same switch is fine with a fresh
+   snapshot and leaves two live backends and two lists with a snapshot taken before the first join. *)
+Theorem C16_snapshot_keyed_variant_refuted :
+  let fresh_snap := connect_keyed (Some 0) 1 start_st in
+  let stale_snap := connect_keyed None 1 start_st in
+  snd fresh_snap = RSuccess /\ state_ok 3 (observe 3 [RSuccess] (fst fresh_snap)) = true /\
+  snd stale_snap = RSuccess /\ state_ok 3 (observe 3 [RSuccess] (fst stale_snap)) = false /\
+  map c_srv (opened (fst stale_snap)) = [1; 0] /\ lists (fst stale_snap) = [1; 0] /\
+  fst fresh_snap = fst (connect_raw true (mkEnv FamA [0] []) 1 start_st).
+Proof. exact keyed_refuted. Qed.
+Print Assumptions C16_snapshot_keyed_variant_refuted.
+
 (* Facts about the code BEFORE fix 8f6edb6 (finding C16-2, fixed): it equalled today's code on every
    history without requests issued during a flight ... *)
 Theorem C16_prefix_equals_impl_off_trigger :
